@@ -1,4 +1,5 @@
 import Tea.VT.Term
+import Tea.Proofs.Ansi
 /-
 Level 1 of C06: what each terminal operation does to the visible part of a buffer
 (`cells`, `top`, `cr`, `cc`, `pw`).  Everything is stated on `applyBuf` /
@@ -72,6 +73,16 @@ theorem padLine_getElem? (w : Nat) (l : Bytes) (c : Nat) (hc : c < w) :
     simp only [List.length_take, List.getD, List.getElem?_eq_none (Nat.le_of_not_lt hl),
       Option.getD_none]
     rw [List.getElem?_replicate, if_pos (by omega)]
+
+/-- cutting at the width first does not change the padded line -/
+theorem padLine_take (w : Nat) (l : Bytes) : padLine w (l.take w) = padLine w l := by
+  simp only [padLine, List.take_take, Nat.min_self, List.length_take]
+  congr 2
+  omega
+
+/-- the padded line starts with the line cut at the width -/
+theorem padLine_take_min (w : Nat) (l : Bytes) : (padLine w l).take (min w l.length) = l.take w := by
+  simp [padLine, List.length_take]
 
 /-- `rowShows` says exactly that the visible row equals the cut and padded line -/
 theorem rowShows_iff_row (w : Nat) (b : Buf) (R : Nat) (l : Bytes) :
@@ -181,16 +192,18 @@ theorem text_spec (w h : Nat) : ∀ (s : Bytes) (b : Buf), ColOK w b → vcol b 
     · rw [if_neg (by intro hh; exact hr hh.1), if_neg (by intro hh; exact hr hh.1),
         if_neg (by intro hh; exact hr hh.1)]
 
-/-- `.text s` from column `c`, no pending wrap, `c + s.length ≤ w` -/
-theorem applyBuf_text (w h : Nat) (b : Buf) (s : Bytes) (hc : b.cc + s.length ≤ w) (hcw : b.cc < w)
+/-- `.text s` from column `c`, no pending wrap, the visible part of `s` fits in the rest of the
+row: exactly the visible bytes of `s` are written (its escape sequences take no cell) -/
+theorem applyBuf_text (w h : Nat) (b : Buf) (s : Bytes) (hc : b.cc + Ansi.width s ≤ w) (hcw : b.cc < w)
     (hpw : b.pw = false) :
     (applyBuf w h b (.text s)).top = b.top ∧ (applyBuf w h b (.text s)).cr = b.cr ∧
-    ColOK w (applyBuf w h b (.text s)) ∧ vcol (applyBuf w h b (.text s)) = b.cc + s.length ∧
+    ColOK w (applyBuf w h b (.text s)) ∧ vcol (applyBuf w h b (.text s)) = b.cc + Ansi.width s ∧
     ∀ r c, (applyBuf w h b (.text s)).cells r c =
-      if r = b.cr ∧ b.cc ≤ c ∧ c < b.cc + s.length then s.getD (c - b.cc) 32 else b.cells r c := by
+      if r = b.cr ∧ b.cc ≤ c ∧ c < b.cc + Ansi.width s then (Ansi.visible s).getD (c - b.cc) 32
+      else b.cells r c := by
   have hv : vcol b = b.cc := by simp [vcol, hpw]
   have hok : ColOK w b := ⟨hcw, by intro hp; rw [hpw] at hp; cases hp⟩
-  have := text_spec w h s b hok (by rw [hv]; exact hc)
+  have := text_spec w h (Ansi.visible s) b hok (by rw [hv]; exact hc)
   rw [hv] at this
   exact this
 
@@ -319,22 +332,23 @@ theorem applyBuf_el2_cells (w h : Nat) (b : Buf) (r c : Nat) :
 
 /-! ### (c) painting one line -/
 
-/-- the operations that paint one (already cut) line: the text, then EL0 unless it fills the row -/
-def lineOps (w : Nat) (s : Bytes) : List TermOp := [.text s] ++ (if s.length < w then [.el0] else [])
+/-- the operations that paint one (already cut) line: the text, then EL0 unless it fills the row
+(the cells it takes are those of its visible part) -/
+def lineOps (w : Nat) (s : Bytes) : List TermOp := [.text s] ++ (if Ansi.width s < w then [.el0] else [])
 
-/-- (c) from column 0 with no pending wrap, `lineOps w s` with `s.length ≤ w` makes the cursor
-row show exactly `s` followed by blanks, leaves every other row alone, does not move the
-cursor to another row and does not scroll -/
-theorem lineOps_spec (w h : Nat) (b : Buf) (s : Bytes) (hw : 1 ≤ w) (hs : s.length ≤ w)
+/-- (c) from column 0 with no pending wrap, `lineOps w s` with `Ansi.width s ≤ w` makes the cursor
+row show exactly the visible part of `s` followed by blanks, leaves every other row alone, does
+not move the cursor to another row and does not scroll -/
+theorem lineOps_spec (w h : Nat) (b : Buf) (s : Bytes) (hw : 1 ≤ w) (hs : Ansi.width s ≤ w)
     (hc : b.cc = 0) (hp : b.pw = false) :
     (applyBufs w h b (lineOps w s)).top = b.top ∧ (applyBufs w h b (lineOps w s)).cr = b.cr ∧
     ColOK w (applyBufs w h b (lineOps w s)) ∧
     (∀ r, r ≠ b.cr → ∀ c, (applyBufs w h b (lineOps w s)).cells r c = b.cells r c) ∧
-    rowShows w (applyBufs w h b (lineOps w s)) b.cr s := by
+    rowShows w (applyBufs w h b (lineOps w s)) b.cr (Ansi.visible s) := by
   obtain ⟨t1, t2, t3, t4, t5⟩ := applyBuf_text w h b s (by omega) (by omega) hp
   rw [hc] at t4 t5
   unfold lineOps
-  by_cases hlt : s.length < w
+  by_cases hlt : Ansi.width s < w
   · obtain ⟨e1, e2⟩ := colOK_vcol_lt t3 t4 (by omega)
     simp only [hlt, if_true, List.cons_append, List.nil_append, applyBufs_cons, applyBufs_nil,
       applyBuf_el0_top, applyBuf_el0_cr, t1, t2, true_and]
@@ -345,12 +359,12 @@ theorem lineOps_spec (w h : Nat) (b : Buf) (s : Bytes) (hw : 1 ≤ w) (hs : s.le
         if_neg (by intro hh; exact hr hh.1)]
     · intro c hcw
       rw [applyBuf_el0_cells, t2, e1, t5]
-      by_cases hcs : c < s.length
+      by_cases hcs : c < Ansi.width s
       · rw [if_neg (by omega), if_pos ⟨rfl, by omega, by omega⟩]
         simp
       · rw [if_pos ⟨rfl, by omega, hcw⟩]
         simp [List.getD, List.getElem?_eq_none (Nat.le_of_not_lt hcs)]
-  · have hsw : s.length = w := by omega
+  · have hsw : Ansi.width s = w := by omega
     simp only [hlt, if_false, List.append_nil, applyBufs_cons, applyBufs_nil, t1, t2, true_and]
     refine ⟨t3, ?_, ?_⟩
     · intro r hr c
